@@ -52,6 +52,13 @@ func (g *gen) damage(f []byte) []byte {
 func (g *gen) malformedHistory(depth int) []string {
 	toks := g.history(depth, [8]int{15, 10, 20, 15, 12, 15, 7, 6})
 	out := toks[:2:2]
+	if g.rng.Chance(35) {
+		// a valid Ethernet + IPv4 header from a LAN host followed by a transport header that is too short:
+		// Parse validates the transport layer only after the host entry has been created
+		ci := g.rng.Intn(len(macs))
+		proto := []byte{17, 6, 1}[g.rng.Intn(3)]
+		out = append(out, "p:"+lib.Hex(lib.MkEther(lib.RouterMAC, macs[ci], 0x0800, lib.MkIP4(ip4s[ci], lib.RouterIP4, proto, 64, g.rng.Bytes(1+g.rng.Intn(3))))))
+	}
 	for _, t := range toks[2:] {
 		fs := strings.Split(t, ":")
 		isPkt := len(fs) >= 2 && strings.Contains("pdrnmlbscaef", fs[0]) && len(fs[0]) == 1 && fs[0] != "q" && fs[0] != "x" && fs[0] != "o" && fs[0] != "u"
@@ -90,6 +97,9 @@ func runMalformedCase(a []string) string {
 				done <- fmt.Sprintf("F@%d", i)
 				return
 			}
+		}
+		if osGetenv("C10_DEBUG") != "" {
+			fmt.Fprintf(osStderr, "hm stats: rejected=%d rejected-but-changed=%d panics=%d %s\n", malformedStats.parseErr, malformedStats.rejectedChanged, malformedStats.panics, malformedSample)
 		}
 		done <- "T"
 	}()
